@@ -93,6 +93,17 @@ class World(object):
             self.brokers[n] = self.fresh_addr()
         return [n]
 
+    def readdress(self, n, mode):
+        """broker n now listens elsewhere: mode 'port' (same host), 'host' (same port), 'both' """
+        h, p = self.brokers[n]
+        if mode == "port":
+            self.brokers[n] = (h, self.rnd.choice([q for q in (9092, 9093, 1234, 19092) if q != p]))
+        elif mode == "host":
+            self.next_host += 1
+            self.brokers[n] = (self.next_host, p)
+        else:
+            self.brokers[n] = self.fresh_addr()
+
     def add_broker(self):
         n = max(list(self.brokers) + [0]) + 1
         self.brokers[n] = self.fresh_addr()
@@ -485,6 +496,51 @@ def gen_fallback_history(rnd):
             "seed": rnd.randint(0, 10 ** 6), "ops": ops}
 
 
+def gen_coord_readdress_history(rnd):
+    """C07/C08: a FindCoordinator answer is the FIRST to tell the client that a node it already knows (from topic
+    metadata) listens at a new address - same node id, other host and/or port - with and without a live connection to
+    the node, the lookup being a call of its own or nested in the group request; then group / offset requests."""
+    W = World(rnd, nbrokers=rnd.randint(2, 4), ntopics=rnd.randint(1, 3))
+    hosts = W.boot_hosts()
+    g = rnd.randint(0, 2)
+    n = rnd.choice(sorted(W.brokers))
+    W.coords[g] = n
+    W.anchor = rnd.choice([m for m in sorted(W.brokers) if m != n])
+    if W.brokers[W.anchor] not in hosts:
+        hosts.append(W.brokers[W.anchor])
+    gform = group_form(rnd)
+    ops = [{"op": "meta", "topics": [], "plan": W.plan()}]                  # node n known at address A
+    keys = dedup(W.payload_keys(rnd.choice([1, 2, 3]), unknown=0.0))
+
+    def group_request():
+        kind = rnd.choice(["offset_commit", "offset_fetch", "sendcoord", "direct"])
+        if kind == "sendcoord":
+            return {"op": "sendcoord", "group": g, "group_form": gform, "tag": rnd.randint(1, 50), "plan": W.plan(g)}
+        return {"op": "send", "api": kind, "group": g, "group_form": gform, "fail": rnd.random() < 0.5, "expect": True,
+                "payloads": [list(k) for k in keys], "plan": W.plan(g)}
+    connected = rnd.random() < 0.6
+    if connected:
+        # make the client connect to n (a request to the partitions n leads, or a first group request)
+        mine = [(t, p) for t in W.topics for p, l in W.topics[t].items() if l == n]
+        if mine and rnd.random() < 0.6:
+            ops.append({"op": "send", "api": "direct", "group": None, "fail": False, "expect": True,
+                        "payloads": [list(k) for k in mine[:2]], "plan": W.plan()})
+        else:
+            ops.append(group_request())
+    W.readdress(n, rnd.choice(["port", "host", "both"]))
+    if connected and rnd.random() < 0.8:
+        ops.append({"op": "drop", "node": n})                               # ... without a live connection any more
+    if rnd.random() < 0.4:
+        ops.append({"op": "reset_groups", "groups": [g]})
+    if rnd.random() < 0.5:
+        ops.append({"op": "coord", "group": g, "group_form": gform, "plan": W.plan(g)})   # the lookup as a call of its own
+    for _ in range(rnd.randint(1, 3)):
+        ops.append(group_request())
+    if rnd.random() < 0.3:
+        ops.append(gen_send(rnd, W))
+    return {"hosts": [list(h) for h in hosts], "form": "tuples", "universe": UNIVERSE, "seed": rnd.randint(0, 10 ** 6), "ops": ops}
+
+
 def gen_failover(rnd, attempts=None):
     """C08 recovery: an honest cluster; warm up, inject a finite sequence of faults (leader moves, broker deaths,
     restarts at new addresses, coordinator moves), then retry ONE request until it succeeds.
@@ -762,13 +818,31 @@ def mon_told(ob, tr, bad):
         return
     loads = ob["pump"]["loads"]
     reqs = ob["pump"]["reqs"]
-    if not loads:
-        for q in reqs:
-            c = before["clients"].get(q["node"])
-            want = tr.addr_of.get(q["node"])
-            if (c is None or not c[2]) and want is not None and tuple(q["addr"]) != tuple(want):
-                bad.append(("C07_request_address", "an unconnected broker client dialled another address than the latest response gave for its node",
-                            q["node"], list(q["addr"]), list(want)))
+    # every lookup of a call precedes its fan-out (client.py resolves all payloads first), so the address a node is
+    # dialled at is judged against the latest response naming the node INCLUDING the answers of this call's own lookups
+    # (metadata answers and FindCoordinator answers alike); nodes that a lookup of this call itself tried (and thereby
+    # may have connected) are left out
+    addr_of = dict(tr.addr_of)
+    tried = set()
+    for ld in loads:
+        tried.update(x[1] for x in ld["tries"] if x[0] == 0)
+        if ld.get("resp") is None:
+            continue
+        if ld.get("kind") == 0:
+            for n, a in decode_raw(ld["resp"])[0].items():
+                addr_of[n] = tuple(a)
+        elif ld.get("kind") == 1 and ld["resp"][0] == 0:
+            addr_of[ld["resp"][1]] = (ld["resp"][2], ld["resp"][3])
+    for q in reqs:
+        c = before["clients"].get(q["node"])
+        want = addr_of.get(q["node"])
+        if q["node"] in tried or want is None or (c is not None and c[2]):
+            continue
+        if tuple(q["addr"]) != tuple(want):
+            what = "an unconnected broker client dialled another address than the latest response gave for its node"
+            if op.get("group") is not None:
+                what = "the request for the group was dialled at another address than the latest coordinator lookup / metadata answer named for the coordinator"
+            bad.append(("C07_request_address", what, q["node"], list(q["addr"]), list(want)))
     if op["op"] != "send" or op.get("group") is not None:
         return
     touched = set()
